@@ -24,9 +24,16 @@ class Undecided(Exception):
 class Thrown(Undecided):
     """a throw expression was reached on the evaluated path"""
 
-    def __init__(self, node=None, what='throw reached'):
-        Undecided.__init__(self, what)
+    def __init__(self, node=None, what='throw reached', etype=None):
+        Undecided.__init__(self, what if etype is None or etype in what else '%s (%s)' % (what, etype))
         self.node = node
+        self.etype = etype
+        if etype is None and what:
+            # library throws raised by the models name their type in the message
+            for t_ in ('out_of_range', 'invalid_argument', 'length_error', 'runtime_error', 'logic_error'):
+                if t_ in what:
+                    self.etype = 'std::' + t_
+                    break
 
 
 class Stream:
@@ -48,6 +55,7 @@ class Rec:
     def __init__(self, is_union=False):
         self.f = {}
         self.is_union = is_union
+        self.cls = None
 
 
 class VecL:
@@ -79,6 +87,22 @@ class SW:
 
     def __init__(self):
         self.s = Str()
+
+
+class JV:
+    """phosg::JSON at specification level: kind in null/bool/int/float/str/list/dict"""
+
+    def __init__(self, kind='null', val=None):
+        self.kind, self.val = kind, val
+
+    def py(self):
+        if self.kind == 'list':
+            return [x.py() for x in self.val]
+        if self.kind == 'dict':
+            return {k: v.py() for k, v in self.val.items()}
+        if self.kind == 'str':
+            return bytes(self.val)
+        return self.val
 
 
 class MapL:
@@ -433,6 +457,56 @@ class PEval:
             return
         raise Undecided('store through this pointer')
 
+    def lookup_or(self, env, key, default=None):
+        try:
+            return self.lookup(env, key)
+        except KeyError:
+            return default
+
+    def exc_matches(self, etype, htype):
+        """does a handler for htype catch an exception of dynamic type etype"""
+        if etype is None:
+            raise Undecided('exception of unknown type reaches a handler')
+        from exc import Exc
+        if not hasattr(self, '_exc'):
+            self._exc = Exc(self.units)
+        h = htype.replace('const ', '').replace('&', '').strip()
+        return self._exc.derives(etype, h)
+
+    def new_object(self, t):
+        """a default-initialised object of the repo class named by type t (fields from the AST)"""
+        nm = strip_targs(t or '').replace('const ', '').replace('struct ', '').replace('class ', '').strip().split('::')[-1]
+        rec = None
+        for u in self.units:
+            for r in u.records:
+                if r.get('name') == nm and r.get('completeDefinition') and rec is None:
+                    rec = r
+        if rec is None:
+            return None
+        o = Rec(rec.get('tagUsed') == 'union')
+        o.cls = nm
+        for f_ in kids(rec):
+            if f_.get('kind') == 'FieldDecl' and f_.get('name'):
+                ft = (f_.get('type') or {}).get('desugaredQualType') or (f_.get('type') or {}).get('qualType') or ''
+                m_ = re.match(r'^(.+?)\[(\d+)\]$', ft)
+                if m_ and self.elem_info(m_.group(1)) and self.elem_info(m_.group(1))[0] > 1:
+                    ei_ = self.elem_info(m_.group(1))
+                    o.f[f_['name']] = Arr([0] * int(m_.group(2)), ei_[0], ei_[2])
+                elif int_type_info(ft):
+                    o.f[f_['name']] = 0
+                elif ft.rstrip().endswith('*'):
+                    o.f[f_['name']] = None
+                elif 'basic_string' in ft:
+                    o.f[f_['name']] = Str()
+        return o
+
+    def find_ctor(self, cls, ctor_type):
+        for u_ in self.units:
+            for g_ in u_.functions:
+                if g_.get('kind') == 'CXXConstructorDecl' and g_.get('name') == cls and body_of(g_) is not None and (g_.get('type') or {}).get('qualType') == ctor_type:
+                    return g_
+        return None
+
     def buf_target(self, n, env, depth):
         """(Str, offset) designated by a writable buffer argument: X.data(), X.data() + k, &X[k]"""
         n = strip(n)
@@ -671,6 +745,8 @@ class PEval:
                 return 0 if self.truth(v) else 1
             if isinstance(v, float) and op in ('-', '+'):
                 return -v if op == '-' else v
+            if isinstance(v, tuple) and v == ('uninit',) and op in ('-', '+', '~'):
+                return v         # arithmetic on an indeterminate value stays indeterminate (it is an error only if it is used)
             if not isinstance(v, int):
                 raise Undecided('unary %s on a non-integer' % op)
             return self.wrap({'-': -v, '+': v, '~': ~v}[op], t)
@@ -777,6 +853,23 @@ class PEval:
     def construct(self, n, env, depth):
         t = dtype(n) or ''
         args = [c for c in kids(n) if c.get('kind') and c.get('kind') != 'CXXDefaultArgExpr']
+        if t.replace('const ', '').replace('phosg::', '').strip() == 'JSON':
+            if not args:
+                return JV()
+            if len(args) == 1:
+                v = self.ev(args[0], env, depth)
+                at = (dtype(strip(args[0])) or qtype(strip(args[0])) or '')
+                if isinstance(v, JV):
+                    return JV(v.kind, v.val)        # containers are shared on purpose: moves dominate in the parser
+                if v is None:
+                    return JV('null', None)
+                if isinstance(v, float):
+                    return JV('float', v)
+                if isinstance(v, (Str, Lit)):
+                    return JV('str', bytearray(v.b) if isinstance(v, Str) else bytearray(v.cstr()))
+                if isinstance(v, int):
+                    return JV('bool', bool(v)) if at.replace('const ', '').strip() == 'bool' else JV('int', v)
+            raise Undecided('JSON constructor form')
         if t.replace('const ', '').startswith(('std::unique_ptr<', 'std::shared_ptr<')) and len(args) in (1, 2):
             return self.ev(args[0], env, depth)          # the owner stands for the pointer it holds
         if t.replace('const ', '').startswith('std::pair<') and len(args) in (1, 2):
@@ -983,6 +1076,18 @@ class PEval:
         return self.wrap(r, t)
 
     # ------------------------------------------------------------------ calls
+    def callee(self, n):
+        """declaration of the function a call node resolves to, looked up in the unit the node belongs to"""
+        best = None
+        for u in self.units:
+            d = callee_decl(n, u)
+            if d is None:
+                continue
+            if body_of(d) is not None or d.get('mangledName'):
+                return d
+            best = best or d
+        return best
+
     def find_body(self, rd):
         if rd is None:
             return None
@@ -1038,6 +1143,12 @@ class PEval:
                     r = Str(obj.b)
                     self.str_append(r, v)
                     return r
+            if isinstance(obj, JV) and name == 'operator=':
+                v = self.ev(ops[1], env, depth)
+                if isinstance(v, JV):
+                    obj.kind, obj.val = v.kind, v.val
+                    return obj
+                raise Undecided('assignment to a JSON value')
             if isinstance(obj, MapL) and name == 'operator[]':
                 kx = self.ev(ops[1], env, depth)
                 kb = bytes(kx.b) if isinstance(kx, Str) else kx.cstr() if isinstance(kx, Lit) else kx if isinstance(kx, int) else None
@@ -1094,7 +1205,7 @@ class PEval:
                         if isinstance(i_, int) and 0 <= i_ < len(vobj.fields):
                             return Ord(i_, vobj.side)
                         raise Fault('at(%r) is outside the %d components' % (i_, len(vobj.fields)))
-                    d = callee_decl(n, self.units[0])
+                    d = self.callee(n)
                     fd = self.find_body(d) if d else None
                     if fd is not None and depth < self.max_depth:
                         frame = self.bind(params_of(fd), args, env, depth)
@@ -1110,6 +1221,37 @@ class PEval:
                     return self.str_method(obj, name, args, env, depth, n)
                 if isinstance(obj, Heap) and name in ('get', 'release'):
                     return obj
+                if isinstance(obj, JV):
+                    vals = [self.ev(a, env, depth) for a in args if a.get('kind') != 'CXXDefaultArgExpr']
+                    if name.startswith('is_'):
+                        kinds = {'is_null': ('null',), 'is_bool': ('bool',), 'is_int': ('int',), 'is_float': ('float',), 'is_string': ('str',), 'is_list': ('list',), 'is_dict': ('dict',)}.get(name)
+                        if kinds:
+                            return 1 if obj.kind in kinds else 0
+                    if name == 'as_string' and obj.kind == 'str':
+                        return Str(obj.val)
+                    if name == 'emplace_back' and obj.kind == 'list' and len(vals) == 1 and isinstance(vals[0], JV):
+                        obj.val.append(vals[0])
+                        return vals[0]
+                    if name == 'emplace' and obj.kind == 'dict' and len(vals) == 2 and isinstance(vals[0], (Str, Lit)) and isinstance(vals[1], JV):
+                        kb = bytes(vals[0].b) if isinstance(vals[0], Str) else vals[0].cstr()
+                        obj.val.setdefault(kb, vals[1])          # unordered_map::emplace keeps the first entry of a key
+                        return None
+                    if name in ('emplace_back', 'emplace'):
+                        raise Thrown(n, 'JSON::%s on a value of kind %s' % (name, obj.kind), etype='phosg::JSON::type_error')
+                    raise Undecided('JSON::%s' % name)
+                if isinstance(obj, Rec) and getattr(obj, 'cls', None):
+                    d = self.callee(n)
+                    fd = self.find_body(d) if d else None
+                    if fd is not None and depth < self.max_depth:
+                        frame = self.bind(params_of(fd), args, env, depth)
+                        frame['__this__'] = obj
+                        try:
+                            self.run([body_of(fd)], frame, depth + 1)
+                        except _Return as r:
+                            v = r.v
+                            rt = (fd.get('type', {}).get('qualType') or '').split('(')[0].strip()
+                            return self.wrap(v, rt) if isinstance(v, int) and int_type_info(rt) else v
+                        return None
                 if isinstance(obj, SW):
                     vals = [self.ev(a, env, depth) for a in args if a.get('kind') != 'CXXDefaultArgExpr']
                     mput = re.match(r'^(p?)put_([us])(\d+)([bl]?)$', name)
@@ -1192,7 +1334,7 @@ class PEval:
                     return self.call_lambda(obj, args, env, depth)
                 if name.startswith('operator ') and isinstance(obj, (int, Lit, Str)):
                     return obj          # conversion operator of a wrapper evaluated to its value
-            d = callee_decl(n, self.units[0])
+            d = self.callee(n)
             fd = self.find_body(d) if d else None
             if fd is not None and depth < self.max_depth and (objn is None or is_this(objn)):
                 return self.call_function(fd, args, env, depth)
@@ -1261,6 +1403,14 @@ class PEval:
                 st.pos += cnt
                 self.reads = getattr(self, 'reads', []) + [cnt]
                 return None
+        if name in ('dict', 'list') and not args and 'JSON' in (dtype(n) or qtype(n) or ''):
+            return JV('dict', {}) if name == 'dict' else JV('list', [])
+        if name == 'memcmp' and len(args) == 3:
+            cnt = self.ev(args[2], env, depth)
+            if isinstance(cnt, int):
+                a_ = self.mem_bytes(self.ev(args[0], env, depth), cnt) if cnt else b''
+                b_ = self.mem_bytes(self.ev(args[1], env, depth), cnt) if cnt else b''
+                return (a_ > b_) - (a_ < b_)
         if name in ('memcpy', 'memmove') and len(args) == 3:
             cnt = self.ev(args[2], env, depth)
             if not isinstance(cnt, int):
@@ -1499,7 +1649,7 @@ class PEval:
                 raise Undecided('algorithm over a non-constant range')
             rs = [self.truth(self.apply(fn, [v], env, depth)) for v in vals]
             return 1 if {'all_of': all(rs), 'any_of': any(rs), 'none_of': not any(rs)}[name] else 0
-        d = callee_decl(n, self.units[0])
+        d = self.callee(n)
         fd = self.find_body(d) if d else None
         if fd is None:
             callee = strip(kids(n)[0])
@@ -1529,7 +1679,7 @@ class PEval:
     def bind(self, params, args, env, depth, evaluated=False):
         frame = {}
         for i, p in enumerate(params):
-            if i < len(args):
+            if i < len(args) and not (not evaluated and isinstance(args[i], dict) and args[i].get('kind') == 'CXXDefaultArgExpr' and not [c for c in kids(args[i]) if c.get('kind')]):
                 a = args[i]
                 if evaluated:
                     v = a
@@ -1759,6 +1909,19 @@ class PEval:
                         continue
                     init = [c for c in kids(vd) if c.get('kind') and not c['kind'].endswith('Attr')]
                     t = dtype(vd) or ''
+                    tn_ = t.replace('const ', '').replace('phosg::', '').strip()
+                    if tn_ == 'JSON' and (not init or (strip(init[-1]).get('kind') == 'CXXConstructExpr' and not [c for c in kids(strip(init[-1])) if c.get('kind')])):
+                        env[vd['id']] = JV()
+                        continue
+                    if init and tn_ != 'JSON' and tn_ != 'StringWriter' and self.record_kind(t) in ('class', 'struct') and strip(init[-1]).get('kind') == 'CXXConstructExpr' and [c for c in kids(strip(init[-1])) if c.get('kind')] and 'basic_string' not in t and not tn_.startswith('std::'):
+                        ce_ = strip(init[-1])
+                        obj_ = self.new_object(t)
+                        ctor_ = self.find_ctor(tn_.split('::')[-1], (ce_.get('ctorType') or {}).get('qualType')) if obj_ is not None else None
+                        if obj_ is not None and ctor_ is not None:
+                            frame0 = {'__parent__': env, '__this__': obj_}
+                            self.call_function(ctor_, [c for c in kids(ce_) if c.get('kind')], frame0, depth + 1)
+                            env[vd['id']] = obj_
+                            continue
                     m_arr = re.match(r'^(.+?)\[(\d+)\]$', t.replace('const ', ''))
                     if init and m_arr and strip(init[-1]).get('kind') == 'InitListExpr' and self.elem_info(m_arr.group(1)):
                         ei_ = self.elem_info(m_arr.group(1))
@@ -1836,10 +1999,39 @@ class PEval:
                 self.run([sub[-1]] if sub else [], env, depth)
                 continue
             if k == 'CXXTryStmt':
-                self.run([kids(s)[0]], env, depth)
+                ks_ = [c for c in kids(s) if c.get('kind')]
+                try:
+                    self.run([ks_[0]], env, depth)
+                except Thrown as exc_:
+                    handled = False
+                    for h in ks_[1:]:
+                        if h.get('kind') != 'CXXCatchStmt':
+                            continue
+                        hk = [c for c in kids(h) if c.get('kind')]
+                        decl_ = hk[0] if hk and hk[0].get('kind') == 'VarDecl' else None
+                        body_ = hk[-1] if hk else None
+                        htype = ((dtype(decl_) or qtype(decl_) or '') if decl_ is not None else None)
+                        if htype is None or self.exc_matches(exc_.etype, htype):
+                            frame_ = {'__parent__': env, '__caught__': exc_}
+                            if decl_ is not None and decl_.get('name'):
+                                frame_[decl_['id']] = ('exc', exc_)
+                            self.run([body_], frame_, depth)
+                            handled = True
+                            break
+                    if not handled:
+                        raise
                 continue
             if k == 'CXXThrowExpr' or (k == 'ExprWithCleanups' and strip(s).get('kind') == 'CXXThrowExpr'):
-                raise Thrown(s)
+                te = next((x for x in walk(s) if x.get('kind') == 'CXXThrowExpr'), None)
+                if te is not None and not [c for c in kids(te) if c.get('kind')]:
+                    cur = self.lookup_or(env, '__caught__')
+                    if cur is not None:
+                        raise cur              # `throw;` re-raises the exception being handled
+                    raise Undecided('rethrow outside a handler')
+                tt = None
+                if te is not None and kids(te):
+                    tt = (dtype(kids(te)[0]) or qtype(kids(te)[0]) or '').replace('const ', '').strip()
+                raise Thrown(s, 'throw reached', etype=tt)
             if k == 'AttributedStmt':
                 self.run([c for c in kids(s) if c.get('kind') and not c['kind'].endswith('Attr')], env, depth)
                 continue
